@@ -95,6 +95,22 @@ def run(ctx):
                       "script": [{"op": "adopt", "p": "a1"}, {"op": "accept"}, {"op": "wait_running"}, {"op": "wait_start", "p": "a1"}, {"op": "adopt2", "p": "q"}, {"op": "second_accept", "timeout": 0.5},
                                  {"op": "step", "p": "a1"}, {"op": "shutdown", "ctx": "thread", "wait": True}, {"op": "wait_end", "timeout": 4.0},
                                  {"op": "second_accept", "timeout": 0.6}, {"op": "sleep", "ms": 150}, {"op": "shutdown2"}, {"op": "sleep", "ms": 150}], "shape": "targeted-refused-runner-keeps-its-queue"})
+    # shutdown() racing a SIGINT: an asyncio payload that absorbs its first cancellation keeps the
+    # close request of shutdown() pending while the interrupt tears the loop down - shutdown()
+    # still returns normally
+    for k in range(3):
+        extra.append({"seed": ctx.seed + k, "jitter": 0.0, "payloads": {"a1": {"flavour": "asyncio", "swallow": 1 + k % 2, "cleanup": 1}, "t1": {"flavour": "trio", "cleanup": 1}},
+                      "script": [{"op": "adopt", "p": "a1"}, {"op": "adopt", "p": "t1"}, {"op": "accept"}, {"op": "wait_running"}, {"op": "wait_start", "p": "a1"}, {"op": "wait_start", "p": "t1"},
+                                 {"op": "shutdown", "ctx": "thread", "wait": False}, {"op": "sleep", "ms": 30 + 40 * k}, {"op": "sigint"}, {"op": "wait_end", "timeout": 4.0},
+                                 {"op": "second_accept", "timeout": 0.6}, {"op": "sleep", "ms": 50}, {"op": "shutdown2"}, {"op": "sleep", "ms": 150}], "shape": "targeted-shutdown-racing-sigint"})
+    # a payload that adopts another one from inside its own cancellation (on the loop thread)
+    # while shutdown() is stopping the runners: shutdown() and accept() still end
+    for f in ("asyncio", "trio"):
+        for late in scen.FLAVS:
+            extra.append({"seed": ctx.seed, "jitter": 0.0, "payloads": {"c1": {"flavour": f, "cleanup": 1, "adopt_in_cleanup": "late"}, "c2": {"flavour": f, "cleanup": 1}, "late": {"flavour": late}},
+                          "script": [{"op": "adopt", "p": "c1"}, {"op": "adopt", "p": "c2"}, {"op": "accept"}, {"op": "wait_running"}, {"op": "wait_start", "p": "c1"}, {"op": "wait_start", "p": "c2"},
+                                     {"op": "shutdown", "ctx": "thread", "wait": True}, {"op": "wait_end", "timeout": 4.0}, {"op": "second_accept", "timeout": 0.6}, {"op": "sleep", "ms": 50}, {"op": "shutdown2"}, {"op": "sleep", "ms": 150}],
+                          "shape": "targeted-adopt-in-cleanup-during-shutdown"})
     # payloads that swallow their first cancellation(s)
     for k in range(3):
         extra.append({"seed": ctx.seed + k, "jitter": 0.0, "payloads": {"a1": {"flavour": "asyncio", "swallow": k, "cleanup": 1}, "t1": {"flavour": "trio"}},
